@@ -50,6 +50,8 @@ def run_stream_glue(kind, pieces):
         out += st._flush_decompressor()
     except ProtocolError:
         return None
+    except Exception as error:      # anything else is not what the glue promises
+        return 'exception:' + type(error).__name__
     return out.hex()
 
 
@@ -86,9 +88,95 @@ def machine_sample(body, pieces, wbits):
     return a == b == c
 
 
+def cps(s):
+    """str -> hex6 code point string"""
+    return ''.join('%06x' % ord(c) for c in s)
+
+
+def run_glue(loop, case):
+    """One response read by the REAL Stream.read_response + Stream.read_body over the
+    scripted connection.  Observed: the file content (also at the moment of an error),
+    the error class, the value fields.get('Content-Encoding', '') the glue saw, the read
+    strategy, every piece handed to _decompress_data, every Connection.read."""
+    import io
+    from harness.fakes.conn import ScriptedConnection
+    import wpull.protocol.http.stream as S
+    from wpull.protocol.http.request import Request
+    segs = [bytes.fromhex(x) for x in case['segs']]
+    head_len = case['head_len']
+    sc = ScriptedConnection(loop, [segs], eof_after=[True])
+    stream = S.Stream(sc.connection, keep_alive=case.get('keep_alive', True),
+                      ignore_length=case.get('ignore_length', False))
+    pieces = []
+    real_decompress = stream._decompress_data
+
+    def logged_decompress(data):
+        pieces.append(bytes(data))
+        return real_decompress(data)
+    stream._decompress_data = logged_decompress
+    request = Request('http://h.test/x', method='GET')
+    body = io.BytesIO()
+    r = {'error': None, 'stage': 'head'}
+    response = None
+    try:
+        sc.open_gate()
+        response = loop.run_until_complete(stream.read_response())
+        r['stage'] = 'body'
+        r['ce'] = cps(response.fields.get('Content-Encoding', ''))
+        r['strategy'] = stream.get_read_strategy(response)
+        n0 = len(sc.read_log)
+        loop.run_until_complete(stream.read_body(request, response, file=body, raw=case.get('raw', False)))
+        r['stage'] = 'done'
+    except Exception as error:      # the class is the observable
+        r['error'] = type(error).__name__
+    r['file'] = body.getvalue().hex()
+    r['pieces'] = [p.hex() for p in pieces]
+    r['reads'] = [[b - head_len, n] for b, n in sc.read_log if b >= head_len]
+    r['starved'] = sc.reader.starved
+    r['decoder'] = type(stream._decompressor).__name__
+    ent = bytes.fromhex(case['delivered'])
+    if case.get('tables'):
+        r['tables'] = {k: table(ent, w) for k, w in WB.items()}
+    r['machine_ok'] = all(machine_sample(ent, pieces if b''.join(pieces) == ent else [ent], w) for w in WB.values())
+    return r
+
+
+def lower_fact():
+    """The one fact about str.lower() that Model/DecompGlue.select_kind uses, checked over
+    ALL of Unicode: an ASCII character lowers to ascii_lower of it, and the lower() of any
+    other code point contains a character outside 'gzipdeflate' (so it can never help to
+    spell one of the two names)."""
+    letters = set('gzipdeflate')
+    bad = []
+    for c in range(0x110000):
+        lo = chr(c).lower()
+        if c < 128:
+            exp = chr(c + 32) if 65 <= c <= 90 else chr(c)
+            if lo != exp:
+                bad.append(c)
+        elif not (set(lo) - letters):
+            bad.append(c)
+    # context dependence (final sigma) cannot produce ASCII either; sample words around each letter
+    for w in ('gzip', 'deflate'):
+        for i in range(len(w) + 1):
+            for c in (0x3a3, 0x130, 0x212a, 0x17f, 0xdf, 0x1e9e):
+                t = w[:i] + chr(c) + w[i:]
+                if t.lower() == w:
+                    bad.append(c)
+    return {'checked': 0x110000, 'bad': bad[:10]}
+
+
 def main():
     req = json.load(sys.stdin)
     res = []
+    if req.get('glue') is not None:
+        from harness.compat import new_loop
+        loop = new_loop()
+        out = {'results': [run_glue(loop, c) for c in req['glue']]}
+        if req.get('lower_fact'):
+            out['lower_fact'] = lower_fact()
+        print(json.dumps(out))
+        return
     for case in req['cases']:
         kind = case['kind']
         pieces = [bytes.fromhex(p) for p in case['pieces']]
